@@ -4,6 +4,7 @@
  */
 
 #include <string.h>
+#include <stdlib.h>
 
 #include "types.h"
 
@@ -26,8 +27,9 @@ extern long mpt_buffer_set(MPT_STRUCT(buffer) *buf, const MPT_STRUCT(type_traits
 	const MPT_STRUCT(type_traits) *traits;
 	int  (*init)(void *, const void *);
 	void (*fini)(void *);
-	uint8_t *ptr;
-	size_t end, used;
+	uint8_t *ptr, *save;
+	uint8_t small[256];
+	size_t end, used, save_len;
 	size_t elem_size;
 	
 	if ((SIZE_MAX - pos) < len) {
@@ -80,11 +82,29 @@ extern long mpt_buffer_set(MPT_STRUCT(buffer) *buf, const MPT_STRUCT(type_traits
 			return MPT_ERROR(BadType);
 		}
 	}
-	/* terminate overlapping target data */
+	/* overlapping target data */
+	save = 0;
+	save_len = 0;
 	if (fini) {
 		size_t off, stop = (used < end) ? used : end;
-		for (off = pos; off < stop; off += elem_size) {
-			fini(ptr + off);
+		/* elements to replace stay alive until their replacements exist:
+		 * a new element may refer to the same entity as the one it replaces */
+		if (init) {
+			if (pos < stop) {
+				save_len = stop - pos;
+				save = small;
+				if (save_len > sizeof(small)
+				    && !(save = malloc(save_len))) {
+					return MPT_ERROR(BadOperation);
+				}
+				memcpy(save, ptr + pos, save_len);
+			}
+		}
+		/* ownership is transferred by raw copy: terminate first */
+		else {
+			for (off = pos; off < stop; off += elem_size) {
+				fini(ptr + off);
+			}
 		}
 	}
 	/* initialize prepending data */
@@ -126,19 +146,30 @@ extern long mpt_buffer_set(MPT_STRUCT(buffer) *buf, const MPT_STRUCT(type_traits
 				/* invalidate remaining data as result of fatal error */
 				buf->_used = pos;
 				if (fini) {
-					/* replaced elements are already terminated */
-					for (pos = end; pos < used; pos += elem_size) {
-						fini(ptr + pos);
+					size_t off;
+					for (off = end; off < used; off += elem_size) {
+						fini(ptr + off);
 					}
 				}
-				return count;
+				break;
 			}
 			pos += elem_size;
 			from += elem_size;
 		}
 		/* update target size */
-		buf->_used = (used < end) ? end : used;
-		
+		if (pos >= end) {
+			buf->_used = (used < end) ? end : used;
+		}
+		/* terminate the replaced elements */
+		if (save) {
+			size_t off;
+			for (off = 0; off < save_len; off += elem_size) {
+				fini(save + off);
+			}
+			if (save != small) {
+				free(save);
+			}
+		}
 		return count;
 	}
 }
